@@ -78,7 +78,7 @@ def main():
         print(json.dumps(out, indent=1))
         return 0
     expected = json.load(open(exp_path))
-    problems, n = [], 0
+    problems, notes, n = [], [], 0
     from collections import Counter
     if True:
         # Compared as a multiset of (label, expression) over all files of the components named on
@@ -100,14 +100,20 @@ def main():
                     problems.append(f"{f}: trait bound `{key}` occurs {b.get(key, 0)} times, expected at least {cnt}")
         for (lab, e), cnt in want.items():
             n += 1
-            if now.get((lab, e), 0) < cnt:
-                others = [x for (l2, x) in now if l2 == lab and x != e]
-                if others:
-                    problems.append(f"component {comp}: static assertion {lab} changed: expected `{e}` x{cnt}, found `{others[0]}`")
-                else:
-                    problems.append(f"component {comp}: static assertion {lab} ({e}) occurs {now.get((lab, e), 0)} times, expected {cnt}")
+            have = now.get((lab, e), 0)
+            others = [x for (l2, x) in now if l2 == lab and x != e]
+            if others:
+                problems.append(f"components {comp}: static assertion {lab} changed: expected `{e}`, found `{others[0]}`")
+            elif have == 0:
+                problems.append(f"components {comp}: static assertion {lab} ({e}) has disappeared (expected {cnt} occurrences)")
+            elif have < cnt:
+                # de-duplicated into a shared helper, or dropped from one of several call sites:
+                # recorded, not an alarm (the assertion is still in force somewhere)
+                notes.append(f"static assertion {lab} ({e}) occurs {have} times, expected {cnt}")
     for p in problems:
         print("GUARD-PROBLEM", p)
+    for p in notes:
+        print("GUARD-NOTE", p)
     print(f"static guards: {n} checked, {len(problems)} problems")
     return 1 if problems else 0
 
